@@ -21,6 +21,22 @@
 //! modifiers, with `no` it is not (so `(lsft a b)` can never fire). Typings for which that rule
 //! leaves a choice (another sequence also matches the presses, a part of them, or begins with them;
 //! the outcome would depend on the order alternatives are tried in) are counted and not judged.
+//!
+//! OS auto-repeat events (`KeyValue::Repeat`, sim syntax `r:<key>`). Both families also type every
+//! judged sequence with repeat events in the history: one typed key (plain key, chord modifier,
+//! bare modifier, key of an `O-(..)` group) stays down a little longer and is repeated 1-3 times
+//! after its press was consumed and before the next key, in complete typings (any press but the
+//! completing one), before the foreign key and during the silence of a timeout scenario; plus stray
+//! repeats of keys that are not down (a key that is never pressed, the released leader key, a typed
+//! key that was released again) and of the unrelated modifier held since before the leader. These
+//! scenarios go through the whole oracle above (a repeat is not a typed key: it neither advances,
+//! fails nor prolongs the sequence), and each repeat event is judged by what was written to the OS
+//! while it was handled: in the hidden modes a repeat of a held typed key writes nothing while the
+//! sequence is in progress (the key was never pressed at the OS, so a forwarded repeat is a press of
+//! it); in every mode a repeat of a key that is not down writes nothing. In visible-backspaced the
+//! typed key is down at the OS; whether its repeats are forwarded, and how many backspaces are due
+//! when they were, is not decided by the statement: counted, and the backspace count is not judged
+//! for a typing in which a repeat of a character key was forwarded.
 
 #[path = "c12_model.rs"]
 mod model;
@@ -37,6 +53,8 @@ pub static C12: C12Check = C12Check;
 const FOREIGN: &str = "z";
 const PROBE: &str = "y";
 const LEADER_KEY: &str = "0";
+/// a key that is never pressed in any history (only ever the subject of a stray auto-repeat event)
+const NEVER: &str = "x";
 
 #[derive(Clone, Copy, Debug, PartialEq, Eq)]
 enum Mode {
@@ -144,9 +162,51 @@ struct Scenario {
     /// press was processed, before the foreign key / long before the timeout
     mid_sample_at: Option<u64>,
     hold_through: bool,
+    /// OS auto-repeat events of the history, in order
+    reps: Vec<RepEv>,
+}
+
+/// what an injected auto-repeat event is a repeat of
+#[derive(Clone, Copy, Debug, PartialEq, Eq)]
+enum RepClass {
+    /// a key typed as part of the sequence, still held, its press already consumed, the sequence
+    /// still in progress
+    HeldTyped,
+    /// a key typed as part of the sequence and released again (release consumed)
+    ReleasedTyped,
+    /// the leader key, released again
+    LeaderReleased,
+    /// a key that is not part of any sequence and was never pressed
+    NeverPressed,
+    /// a modifier that is not part of the sequence, pressed before the leader and still held
+    HeldUnrelated,
+}
+
+#[derive(Clone, Debug)]
+struct RepEv {
+    at: u64,
+    key: String,
+    class: RepClass,
+}
+
+/// where auto-repeat events go in a typing
+#[derive(Clone, Debug)]
+struct RepPlan {
+    /// index of the typed press whose key is kept down a little longer and repeated `n` times
+    /// (first repeat `delta` ticks after the press was consumed, then `gaps` apart)
+    hold: Option<usize>,
+    n: usize,
+    delta: u64,
+    gaps: [u64; 4],
+    /// a repeat event of a key that is not down, or of the unrelated held modifier, injected just
+    /// before typed press number `.0` (after everything before it has been consumed); `.1` selects
+    /// among the keys available at that point
+    stray: Option<(usize, u64)>,
 }
 
 struct Obs {
+    /// OS outputs written while each auto-repeat event of the history was handled
+    rep_outs: Vec<Vec<Out>>,
     trace: Vec<Out>,
     active_at_sample: bool,
     active_before_fail: bool,
@@ -159,6 +219,7 @@ fn run(cfg: &str, sc: &Scenario) -> Result<Obs, String> {
     let mut active_before_fail = false;
     let mut sampled = false;
     let mut sampled2 = false;
+    let mut rep_outs: Vec<Vec<Out>> = vec![];
     for e in &sc.hist {
         match e {
             Ev::T(n) => {
@@ -183,12 +244,15 @@ fn run(cfg: &str, sc: &Scenario) -> Result<Obs, String> {
                     active_before_fail = sim.k.sequence_state.is_active();
                     sampled2 = true;
                 }
-                sim.apply(other)
+                sim.apply(other);
+                if let Ev::Rep(_) = other {
+                    rep_outs.push(sim.last().to_vec());
+                }
             }
         }
     }
     let active_at_end = sim.k.sequence_state.is_active();
-    Ok(Obs { trace: sim.normalized(), active_at_sample, active_before_fail, active_at_end })
+    Ok(Obs { rep_outs, trace: sim.normalized(), active_at_sample, active_before_fail, active_at_end })
 }
 
 struct Sched {
@@ -206,6 +270,11 @@ impl Sched {
     fn after(&mut self, gap: u64, e: Ev) {
         let t = self.t + gap;
         self.at(t, e);
+    }
+    /// an auto-repeat event: handled at once when it arrives, never queued
+    fn rep(&mut self, t: u64, e: Ev) {
+        self.evs.push((t, e));
+        self.t = t;
     }
     fn hist(&self, end: u64) -> Vec<Ev> {
         let mut h = vec![];
@@ -232,7 +301,7 @@ fn build(ord: &[El], kind: Kind, leader: Leader, timeout: u64, hold_through: boo
 /// `steps`: what the user does after the leader; `pre`: a key pressed before the leader (released by
 /// one of the steps)
 fn build_steps(steps: &[(bool, String)], pre: Option<&str>, kind: Kind, leader: Leader, timeout: u64, hold_through: bool, rng: &mut Rng) -> Scenario {
-    let sc = build_inner(steps, pre, kind.clone(), leader, timeout, hold_through, rng, false);
+    let (sc, _) = build_inner(steps, pre, kind.clone(), leader, timeout, hold_through, rng, false, None);
     // "within the timeout": every press must be consumed < T after the previous one (or the leader);
     // events injected with zero gap are consumed one per tick, so consumption times are used, with
     // one tick of slack
@@ -243,8 +312,63 @@ fn build_steps(steps: &[(bool, String)], pre: Option<&str>, kind: Kind, leader: 
     if ok {
         sc
     } else {
-        build_inner(steps, pre, kind, leader, timeout, hold_through, rng, true)
+        build_inner(steps, pre, kind, leader, timeout, hold_through, rng, true, None).0
     }
+}
+
+/// The same typing with OS auto-repeat events in it (`rp`). None if the repeats do not fit into the
+/// schedule the scenario kind prescribes (the scenario is then not run at all).
+fn build_steps_rep(steps: &[(bool, String)], pre: Option<&str>, kind: Kind, leader: Leader, timeout: u64, rp: &RepPlan, rng: &mut Rng) -> Option<Scenario> {
+    // every press (and the foreign key) must be consumed < T after the previous press / the leader,
+    // except across the one position a timeout scenario stretches on purpose
+    let fits = |sc: &Scenario| {
+        let skip = match kind {
+            Kind::Timeout { cut, .. } => Some(cut),
+            _ => None,
+        };
+        let mut last = if leader == Leader::AlwaysOn { None } else { Some(4u64) };
+        for (i, t) in sc.press_proc.iter().enumerate() {
+            if let Some(l) = last {
+                if Some(i) != skip && *t - l + 1 >= timeout {
+                    return false;
+                }
+            }
+            last = Some(*t);
+        }
+        match (sc.fail_at, last) {
+            (Some(f), Some(l)) => f + 1 - l + 1 < timeout,
+            _ => true,
+        }
+    };
+    let (sc, ok) = build_inner(steps, pre, kind.clone(), leader, timeout, false, rng, false, Some(rp));
+    if ok && fits(&sc) && !sc.reps.is_empty() {
+        return Some(sc);
+    }
+    let (sc, ok) = build_inner(steps, pre, kind.clone(), leader, timeout, false, rng, true, Some(rp));
+    if ok && fits(&sc) && !sc.reps.is_empty() {
+        Some(sc)
+    } else {
+        None
+    }
+}
+
+/// Auto-repeat events for a typing of which `n_typed` presses are typed (`completes`: the last of
+/// them completes the sequence, so only the earlier ones are held while the sequence is in progress).
+fn rep_plan(n_typed: usize, completes: bool, rng: &mut Rng) -> RepPlan {
+    let n_hold = if completes { n_typed.saturating_sub(1) } else { n_typed };
+    let hold = if n_hold == 0 {
+        None
+    } else if rng.coin() {
+        // the key that is down while the user waits: the last one typed
+        Some(n_hold - 1)
+    } else {
+        Some(rng.usize(n_hold))
+    };
+    let n = 1 + rng.usize(3);
+    let delta = rng.below(3);
+    let gaps = [0, 1 + rng.below(2), 1 + rng.below(2), 1];
+    let stray = if hold.is_none() || rng.chance(2, 3) { Some((rng.usize(n_hold + 1), rng.next_u64())) } else { None };
+    RepPlan { hold, n, delta, gaps, stray }
 }
 
 fn max_press_gap(sc: &Scenario, leader: Leader) -> u64 {
@@ -259,7 +383,11 @@ fn max_press_gap(sc: &Scenario, leader: Leader) -> u64 {
     m
 }
 
-fn build_inner(steps: &[(bool, String)], pre: Option<&str>, kind: Kind, leader: Leader, timeout: u64, hold_through: bool, rng: &mut Rng, tight: bool) -> Scenario {
+fn build_inner(steps: &[(bool, String)], pre: Option<&str>, kind: Kind, leader: Leader, timeout: u64, hold_through: bool, rng: &mut Rng, tight: bool, rp: Option<&RepPlan>) -> (Scenario, bool) {
+    let mut sched_ok = true;
+    let mut reps: Vec<RepEv> = vec![];
+    // every key pressed so far after the leader
+    let mut typed_so_far: Vec<String> = vec![];
     let n_presses = steps.iter().filter(|s| s.0).count();
     let mut sc = Sched { t: 0, proc: 0, evs: vec![] };
     let lk = osc(LEADER_KEY);
@@ -293,11 +421,43 @@ fn build_inner(steps: &[(bool, String)], pre: Option<&str>, kind: Kind, leader: 
     let mut np = 0usize;
     for (is_press, key) in steps.iter() {
         if *is_press {
+            if let Some((sp, sel)) = rp.and_then(|r| r.stray) {
+                if sp == np {
+                    // candidates: keys that are not down at the OS whatever the input mode, and the
+                    // unrelated modifier held since before the leader
+                    let mut cands: Vec<(String, RepClass)> = vec![(NEVER.to_string(), RepClass::NeverPressed)];
+                    if leader != Leader::AlwaysOn {
+                        cands.push((LEADER_KEY.to_string(), RepClass::LeaderReleased));
+                    }
+                    for k in &typed_so_far {
+                        if !held.contains(k) && !cands.iter().any(|c| &c.0 == k) {
+                            cands.push((k.clone(), RepClass::ReleasedTyped));
+                            cands.push((k.clone(), RepClass::ReleasedTyped));
+                        }
+                    }
+                    if let Some(k) = pre {
+                        if held.iter().any(|h| h == k) {
+                            cands.push((k.to_string(), RepClass::HeldUnrelated));
+                        }
+                    }
+                    let (k, class) = cands[(sel % cands.len() as u64) as usize].clone();
+                    // after every earlier event has been consumed
+                    let rt = sc.t.max(sc.proc);
+                    sc.rep(rt, Ev::Rep(osc(&k)));
+                    reps.push(RepEv { at: rt, key: tn(&k), class });
+                }
+            }
             if np == cut {
                 break;
             }
             let t = match slow {
-                Some((i, g)) if i == np => last_press_arrival + g,
+                Some((i, g)) if i == np => {
+                    // the stretched press must arrive exactly then and be consumed in the next tick
+                    if last_press_arrival + g < sc.t || sc.proc > last_press_arrival + g {
+                        sched_ok = false;
+                    }
+                    last_press_arrival + g
+                }
                 _ => sc.t + if tight { 1 } else if exact { 1 + rng.below(2) } else { *rng.pick(&[0u64, 1, 1, 2, 3]) },
             };
             let t = t.max(sc.t);
@@ -305,7 +465,26 @@ fn build_inner(steps: &[(bool, String)], pre: Option<&str>, kind: Kind, leader: 
             presses.push((t, tn(key)));
             press_proc.push(sc.proc);
             held.push(key.clone());
+            typed_so_far.push(key.clone());
             last_press_arrival = t;
+            if let Some(r) = rp {
+                if r.hold == Some(np) {
+                    // the key stays down and the OS starts repeating it: the events arrive once the
+                    // press has been consumed, before anything else is typed
+                    let mut rt = sc.proc.max(sc.t) + if tight { 0 } else { r.delta };
+                    for i in 0..r.n {
+                        if i > 0 {
+                            rt += if tight { 1 } else { r.gaps[i.min(3)] };
+                        }
+                        sc.rep(rt, Ev::Rep(osc(key)));
+                        reps.push(RepEv { at: rt, key: tn(key), class: RepClass::HeldTyped });
+                    }
+                    // a timeout scenario: all of it well before the timeout can have elapsed
+                    if rt + 2 > t + timeout {
+                        sched_ok = false;
+                    }
+                }
+            }
             np += 1;
         } else {
             sc.after(if exact { 1 } else { *rng.pick(&[0u64, 1, 1, 2]) }, Ev::R(osc(key)));
@@ -331,6 +510,9 @@ fn build_inner(steps: &[(bool, String)], pre: Option<&str>, kind: Kind, leader: 
                 // nothing until exactly `gap` ticks after the arrival of the last press
                 mid_sample_at = Some(sc.t.max(last_press_arrival + 2));
                 let t = last_press_arrival + gap;
+                if sc.t + 2 > last_press_arrival + timeout {
+                    sched_ok = false;
+                }
                 sc.t = sc.t.max(t);
                 if sc.t != t {
                     // cannot happen with the timeouts used (>= 10) but never judge a wrong schedule
@@ -345,7 +527,30 @@ fn build_inner(steps: &[(bool, String)], pre: Option<&str>, kind: Kind, leader: 
     sc.at(sample_at, Ev::P(osc(PROBE)));
     sc.after(2, Ev::R(osc(PROBE)));
     let end = sc.t + 15;
-    Scenario { kind, hist: sc.hist(end), presses, press_proc, sample_at, fail_at, mid_sample_at, hold_through }
+    (Scenario { kind, hist: sc.hist(end), presses, press_proc, sample_at, fail_at, mid_sample_at, hold_through, reps }, sched_ok)
+}
+
+/// Scenarios with OS auto-repeat events for one typing that is expected to fire: the complete
+/// typing (`with_complete`), and (`with_failing`) one failing variant (cut + foreign key, or one
+/// position stretched to T-1 / T / T+1).
+fn rep_scenarios(steps: &[(bool, String)], pre: Option<&str>, leader: Leader, timeout: u64, with_complete: bool, with_failing: bool, rng: &mut Rng) -> Vec<Scenario> {
+    let n_presses = steps.iter().filter(|s| s.0).count();
+    let mut scs = vec![];
+    if with_complete {
+        let rp = rep_plan(n_presses, true, rng);
+        scs.extend(build_steps_rep(steps, pre, Kind::Complete, leader, timeout, &rp, rng));
+    }
+    if with_failing {
+        let min_cut = if leader == Leader::AlwaysOn || n_presses > 1 { 1 } else { 0 };
+        if min_cut < n_presses {
+            let cut = min_cut + rng.usize(n_presses - min_cut);
+            let kind = if rng.coin() { Kind::PrefixForeign { cut } } else { Kind::Timeout { cut, gap: timeout - 1 + rng.below(3) } };
+            let completes = matches!(kind, Kind::Timeout { gap, .. } if gap < timeout);
+            let rp = rep_plan(if completes { n_presses } else { cut }, completes, rng);
+            scs.extend(build_steps_rep(steps, pre, kind, leader, timeout, &rp, rng));
+        }
+    }
+    scs
 }
 
 fn downs(trace: &[Out], name: &str) -> Vec<u64> {
@@ -380,8 +585,56 @@ impl<'a> Judge<'a> {
             "history": render_hist(&sc.hist),
             "observed": obs.trace.iter().map(|o| o.short()).collect::<Vec<_>>(),
             "sequence_active_before_probe": obs.active_at_sample,
+            "auto_repeat_events": sc.reps.iter().enumerate().map(|(i, r)| json!({"at": r.at, "key": r.key, "what": format!("{:?}", r.class), "os_output": obs.rep_outs.get(i).map(|o| o.iter().map(|x| x.short()).collect::<Vec<_>>())})).collect::<Vec<_>>(),
             "expected": extra,
         })
+    }
+
+    /// OS auto-repeat events in the history. Hidden modes: a repeat of a typed key that is held
+    /// while the sequence is in progress must not reach the OS (the key was never pressed there; a
+    /// forwarded repeat is a key-down of it). Any mode: a repeat of a key that is not down (never
+    /// pressed, or released again) produces nothing. visible-backspaced, typed key held: the
+    /// statement does not say whether the repeat is forwarded; counted only.
+    fn judge_repeats(&mut self, sc: &Scenario, obs: &Obs, v: &mut Vec<(String, String, Value)>) {
+        let mode = self.mode;
+        for (i, r) in sc.reps.iter().enumerate() {
+            let Some(outs) = obs.rep_outs.get(i) else { continue };
+            self.out.inc("repeat_events");
+            let shown: Vec<String> = outs.iter().map(|o| o.short()).collect();
+            match r.class {
+                RepClass::HeldTyped => {
+                    self.out.inc(if is_mod_name(&r.key) { "repeat_events_of_held_typed_modifier_key" } else { "repeat_events_of_held_typed_character_key" });
+                    if mode.hidden() {
+                        if outs.is_empty() {
+                            self.out.inc(match mode {
+                                Mode::HiddenSuppressed => "hidden_suppressed_repeats_of_held_typed_key_silent",
+                                _ => "hidden_delay_type_repeats_of_held_typed_key_silent",
+                            });
+                        } else {
+                            v.push(("C12:hidden-mode-forwarded-repeat-of-typed-key".into(), format!("{} wrote {shown:?} to the OS for an auto-repeat event of typed key {} while the sequence was in progress", mode.name(), r.key), json!({"os_output_of_repeat_event": [], "repeat_event_at": r.at})));
+                        }
+                    } else {
+                        self.out.inc("visible_repeat_events_of_held_typed_key");
+                        self.out.inc(if outs.is_empty() { "visible_repeats_of_held_typed_key_not_forwarded" } else { "visible_repeats_of_held_typed_key_forwarded" });
+                    }
+                }
+                RepClass::ReleasedTyped | RepClass::LeaderReleased | RepClass::NeverPressed => {
+                    if outs.is_empty() {
+                        self.out.inc(match r.class {
+                            RepClass::ReleasedTyped => "repeats_of_released_typed_key_silent",
+                            RepClass::LeaderReleased => "repeats_of_released_leader_key_silent",
+                            _ => "repeats_of_never_pressed_key_silent",
+                        });
+                    } else {
+                        v.push(("C12:repeat-of-key-not-down-produced-output".into(), format!("an auto-repeat event of {} ({:?}, not down) during sequence input wrote {shown:?} to the OS ({})", r.key, r.class, mode.name()), json!({"os_output_of_repeat_event": [], "repeat_event_at": r.at})));
+                    }
+                }
+                RepClass::HeldUnrelated => {
+                    self.out.inc("repeat_events_of_unrelated_held_modifier");
+                    self.out.inc(if outs.is_empty() { "repeats_of_unrelated_held_modifier_dropped" } else { "repeats_of_unrelated_held_modifier_forwarded" });
+                }
+            }
+        }
     }
 
     /// `si`: index of the typed sequence, `ord`: the ordering typed, `shadow`: sequences that put the
@@ -443,7 +696,12 @@ impl<'a> Judge<'a> {
                     }
                 } else {
                     let chars = typed_names.iter().filter(|n| !is_mod_name(n)).count();
-                    if bsp != chars {
+                    // a forwarded repeat of a character key puts more characters on the screen than
+                    // were typed; what "one backspace per character" means then is not decided
+                    let repeated_chars = obs.rep_outs.iter().flatten().any(|o| o.kind == OutKind::Repeat && !is_mod_name(&o.name));
+                    if repeated_chars {
+                        self.out.inc("visible_backspace_count_not_judged:character_repeat_forwarded");
+                    } else if bsp != chars {
                         v.push(("C12:backspace-count".into(), format!("visible-backspaced sent {bsp} backspaces for {chars} characters typed"), json!({"backspaces": chars})));
                     } else {
                         self.out.inc("visible_completions_backspaced");
@@ -545,6 +803,9 @@ impl<'a> Judge<'a> {
                     }
                 }
             }
+        }
+        if primary_ok && !sc.reps.is_empty() {
+            self.judge_repeats(sc, obs, &mut v);
         }
         if primary_ok {
             // the probe key typed afterwards must be output normally, once
@@ -693,7 +954,7 @@ fn mf_class(els: &[El], plan: &Plan, ty: &Typing) -> &'static str {
 }
 
 /// (b) for the modifier family: the table typed under `combos` x `mcs`
-fn run_modifier_family(ctx: &Ctx, out: &mut CaseOut, table: &Table, configs: &[(Mode, Leader, Mc)], fixed: bool, rng: &mut Rng) {
+fn run_modifier_family(ctx: &Ctx, out: &mut CaseOut, table: &Table, configs: &[(Mode, Leader, Mc)], fixed: bool, rng: &mut Rng, rrng: &mut Rng) {
     {
         for (mode, leader, mc) in configs.iter().copied() {
             let timeout = *rng.pick(&[12u64, 25]);
@@ -752,6 +1013,14 @@ fn run_modifier_family(ctx: &Ctx, out: &mut CaseOut, table: &Table, configs: &[(
                                         scs.push(build_steps(&ty.steps, ty.pre.as_deref(), Kind::Timeout { cut, gap }, leader, timeout, false, rng));
                                     }
                                 }
+                            }
+                            // with OS auto-repeat events (a held bare / chord / unrelated modifier is what
+                            // repeats in practice)
+                            if !table.has_right_hand_bare(si) {
+                                let r = rep_scenarios(&ty.steps, ty.pre.as_deref(), leader, timeout, pi < 3 || rrng.chance(1, 3), pi < 2, rrng);
+                                out.count("scenarios_with_repeat_events", r.len() as u64);
+                                out.count("mf_scenarios_with_repeat_events", r.len() as u64);
+                                scs.extend(r);
                             }
                         }
                     }
@@ -874,15 +1143,16 @@ impl Check for C12Check {
         out.inc("tables_typed");
         if family == Family::Modifier {
             out.inc("mf_tables_typed");
+            let mut rrng = Rng::for_case(if fixed { 0x5eed } else { ctx.seed }, "C12", "mf-rep", idx);
             if fixed {
                 let configs: Vec<(Mode, Leader, Mc)> = COMBOS.iter().flat_map(|(m, l)| [Mc::Default, Mc::Yes, Mc::No].into_iter().map(|mc| (*m, *l, mc))).collect();
-                run_modifier_family(ctx, &mut out, &table, &configs, true, &mut rng);
+                run_modifier_family(ctx, &mut out, &table, &configs, true, &mut rng, &mut rrng);
             } else {
                 let a = rng.usize(COMBOS.len());
                 let b = (a + 1 + rng.usize(COMBOS.len() - 1)) % COMBOS.len();
                 let yes = if rng.coin() { Mc::Default } else { Mc::Yes };
                 let (a, b) = (COMBOS[a], COMBOS[b]);
-                run_modifier_family(ctx, &mut out, &table, &[(a.0, a.1, Mc::Default), (b.0, b.1, yes), (a.0, a.1, Mc::No)], false, &mut rng);
+                run_modifier_family(ctx, &mut out, &table, &[(a.0, a.1, Mc::Default), (b.0, b.1, yes), (a.0, a.1, Mc::No)], false, &mut rng, &mut rrng);
             }
             if idx % 300 == 5 || idx == N_FIXED {
                 out.sample = Some(json!({"idx": idx, "family": "modifier", "table": table.text()}));
@@ -897,6 +1167,7 @@ impl Check for C12Check {
             vec![COMBOS[a], COMBOS[b]]
         };
         let ord_cap = ctx.tier.sel(8, 24);
+        let mut rrng = Rng::for_case(if fixed { 0x5eed } else { ctx.seed }, "C12", "rep", idx);
         for (mode, leader) in combos {
             let timeout = *rng.pick(&[12u64, 25]);
             let cfg = config_text(&table, mode, leader, timeout);
@@ -945,6 +1216,15 @@ impl Check for C12Check {
                             }
                         }
                     }
+                    // the same typing with OS auto-repeat events in it (a key held long enough to repeat,
+                    // stray repeats of keys that are not down); not where a known structural class
+                    // already takes the sequence out of progress
+                    if shadow.is_empty() && modded.is_empty() {
+                        let st = user_steps(ord, false);
+                        let r = rep_scenarios(&st, None, leader, timeout, oi < 2 || rrng.chance(1, 3), oi < 2, &mut rrng);
+                        out.count("scenarios_with_repeat_events", r.len() as u64);
+                        scs.extend(r);
+                    }
                     for sc in &scs {
                         out.inc("scenarios");
                         match run(&cfg, sc) {
@@ -980,7 +1260,7 @@ impl Check for C12Check {
         out
     }
     fn rule(&self) -> String {
-        "two case families. General family (5 of 6 generated cases): case = 12 generated defseq tables (2-4 sequences of 1-4 elements over keys a-f: plain keys, S-/C-/A- chorded keys and groups, O-(..) groups of 2-6 keys; about a third deliberately derived from another sequence of the table as prefix / extension / sub- or super-group) judged by the parser-half oracle; the first accepted table is then typed under 2 of the 8 (input mode x leader) combinations (all 8 for the fixed tables that are the same for every seed (38 cases): the guide's examples, the repository's own overlap table, the known-finding witnesses): every sequence in every permitted ordering (capped at 8 quick / 24 thorough per sequence), with overlap groups released before the next key and held through it; every proper press-prefix followed by a key that occurs in no sequence; one inter-press position per ordering stretched to T-1 / T / T+1. Modifier family (every 6th generated case + 13 fixed tables typed under all 8 combinations x modcancel absent/yes/no): case = 8 generated tables of 1-4 sequences of 1-4(5) members over plain keys a-g, bare modifier keys (lsft lctl lalt lmet ralt, rarely rsft rctl rmet; more likely as first member) and S-/C-/A- chorded keys and groups, two fifths derived from another sequence (chord respelled with the bare key and back, a modifier put in front, same beginning / extension, modifiers dropped), all judged by the parser-half oracle; the first accepted table is typed under 2 (mode, leader) combinations with sequence-backtrack-modcancel absent / yes and once more with no: every sequence canonically (bare modifier tapped), with every bare modifier kept down to the end, with single bare modifiers kept down over the next 1-2 members, with the modifier of one chorded member released only after the next member, with an unrelated modifier pressed before the leader and released after the first press / a random press / everything, and both together; each typing the documented rule decides is run complete, cut after every (first two typings) or one random press + foreign key, and with one position stretched to T-1 / T / T+1; typings that match nothing under the configured setting must fire no virtual key. Non-trivial = table reached the parser; distinct = (accept/reject, table shape) and (mode, leader, [modcancel,] table shape) typed.".into()
+        "two case families. General family (5 of 6 generated cases): case = 12 generated defseq tables (2-4 sequences of 1-4 elements over keys a-f: plain keys, S-/C-/A- chorded keys and groups, O-(..) groups of 2-6 keys; about a third deliberately derived from another sequence of the table as prefix / extension / sub- or super-group) judged by the parser-half oracle; the first accepted table is then typed under 2 of the 8 (input mode x leader) combinations (all 8 for the fixed tables that are the same for every seed (38 cases): the guide's examples, the repository's own overlap table, the known-finding witnesses): every sequence in every permitted ordering (capped at 8 quick / 24 thorough per sequence), with overlap groups released before the next key and held through it; every proper press-prefix followed by a key that occurs in no sequence; one inter-press position per ordering stretched to T-1 / T / T+1. Modifier family (every 6th generated case + 13 fixed tables typed under all 8 combinations x modcancel absent/yes/no): case = 8 generated tables of 1-4 sequences of 1-4(5) members over plain keys a-g, bare modifier keys (lsft lctl lalt lmet ralt, rarely rsft rctl rmet; more likely as first member) and S-/C-/A- chorded keys and groups, two fifths derived from another sequence (chord respelled with the bare key and back, a modifier put in front, same beginning / extension, modifiers dropped), all judged by the parser-half oracle; the first accepted table is typed under 2 (mode, leader) combinations with sequence-backtrack-modcancel absent / yes and once more with no: every sequence canonically (bare modifier tapped), with every bare modifier kept down to the end, with single bare modifiers kept down over the next 1-2 members, with the modifier of one chorded member released only after the next member, with an unrelated modifier pressed before the leader and released after the first press / a random press / everything, and both together; each typing the documented rule decides is run complete, cut after every (first two typings) or one random press + foreign key, and with one position stretched to T-1 / T / T+1; typings that match nothing under the configured setting must fire no virtual key. OS auto-repeat events (both families, from their own random stream so that the scenarios above are the same with and without them): each of the first two typings / orderings of a sequence (the first three in the modifier family; one in three of the others) is typed once more completely with one typed press other than the completing one (even odds: the last such press, else any) kept down and repeated 1-3 times starting 0-2 ticks after the press was consumed, 1-2 ticks apart, before anything else is typed, and in two of three cases one stray repeat event just before a random press: of a key that is never pressed, of the released leader key, of a typed key already released again, or of the unrelated modifier held since before the leader; the first two typings also get one failing variant with repeats (even odds: cut after a random press >= 1 + foreign key, or one position stretched to T-1 / T / T+1; the held key is then the one down during the silence half of the time). A repeat scenario whose events do not fit the prescribed schedule (every press and the foreign key consumed < T after the previous press, repeats of the held key over >= 2 ticks before the timeout could elapse) is rebuilt with minimal gaps or dropped. Not added for orderings in the two known overlap-group structures nor for sequences with a right-hand modifier member. Non-trivial = table reached the parser; distinct = (accept/reject, table shape) and (mode, leader, [modcancel,] table shape) typed.".into()
     }
     fn assumptions(&self) -> Vec<String> {
         vec![
@@ -994,6 +1274,9 @@ impl Check for C12Check {
             "orderings for which oracle (a) reports a prefix conflict are not typed (their outcome is ambiguous by that finding)".into(),
             "sequence-always-on is judged only with hidden-delay-type and visible-backspaced: with hidden-suppressed every key that is not part of a sequence, including the witness keys, is swallowed by design".into(),
             "whether sequence mode has ended is read from the OS stream where it shows and from the public sequence_state.is_active() between ticks otherwise (visible-backspaced shows keys either way)".into(),
+            "auto-repeat events: a repeat event is not a typed key (it does not advance, fail or prolong a sequence; the unchanged tree and the comment in key_repeat.rs agree, the statement speaks of keys typed). 'In progress' for the hidden-mode clause is decided by the model, not read from kanata: from the tick that consumed the press of the held key (itself after the leader was consumed, or the first key with always-on) until the completing press / the foreign key / T-2 ticks after the last press".into(),
+            "auto-repeat events, visible-backspaced: the typed keys are down at the OS and the unchanged tree forwards their repeats ('key repeat does not interact with the sequence'); the statement does not say whether it should, so forwarded / not forwarded is only counted, and 'one backspace per character typed' is not judged for a completing typing in which a repeat of a non-modifier key reached the OS (more characters are on the screen than were typed); repeats of modifier keys do not type characters and leave the count judged. Repeats of the unrelated modifier held since before the leader (down at the OS in every mode) are only counted: the hidden modes drop them, visible-backspaced forwards them, the statement decides neither".into(),
+            "auto-repeat events are only placed while the sequence is in progress (or, stray ones, before the first key with always-on); repeats of keys still held when the sequence completes or fails are C14's subject".into(),
             "timeout boundary per DESIGN appendix A: a press arriving < T ticks after the previous press (or the leader) continues, at >= T the mode has ended".into(),
         ]
     }
@@ -1032,6 +1315,18 @@ impl Check for C12Check {
             ("mf_unmatchable_fired_nothing:bare-modifier-first-tapped:modcancel-no", 150),
             ("mf_unmatchable_fired_nothing:bare-modifier-first-held:modcancel-no", 200),
             ("mf_unmatchable_fired_nothing:unrelated-modifier-held-on-first-key:modcancel-no", 1500),
+            // auto-repeat events: every class was injected and observed in every input mode
+            ("scenarios_with_repeat_events", 50_000),
+            ("mf_scenarios_with_repeat_events", 8_000),
+            ("repeat_events_of_held_typed_character_key", 50_000),
+            ("repeat_events_of_held_typed_modifier_key", 10_000),
+            ("hidden_suppressed_repeats_of_held_typed_key_silent", 15_000),
+            ("hidden_delay_type_repeats_of_held_typed_key_silent", 20_000),
+            ("visible_repeat_events_of_held_typed_key", 20_000),
+            ("repeats_of_never_pressed_key_silent", 10_000),
+            ("repeats_of_released_leader_key_silent", 6_000),
+            ("repeats_of_released_typed_key_silent", 8_000),
+            ("repeat_events_of_unrelated_held_modifier", 300),
         ]
     }
 }
